@@ -672,6 +672,9 @@ def rel_region(base, ref, via):
     if join_as_is(effective_base(base, via), ref) == rfc_resolve(base, ref):
         return 0
     rpath = ref.split("#")[0].split("?")[0]
+    colon, slash = ref.find(":"), ref.find("/")
+    if uri_split(ref)[0] is None and colon >= 0 and (slash < 0 or colon < slash):
+        return 16      # C05p a colon in the query or fragment of a relative reference: taken for an absolute IRI
     if ref.startswith("?"):
         return 12      # C05l query-only reference
     if "/./" in rpath or "/../" in rpath or rpath.endswith(("/.", "/..")):
@@ -1358,7 +1361,7 @@ class Conf(Suite):
     oeq = "bools_eqb"
     spec = "conf_spec"
     kf = "conf_kf"
-    kf_ids = {10: "C05j", 11: "C05k", 12: "C05l", 13: "C05m", 14: "C05n", 15: "C05o"}
+    kf_ids = {10: "C05j", 11: "C05k", 12: "C05l", 13: "C05m", 14: "C05n", 15: "C05o", 16: "C05p"}
     CHECKS: list = []
 
     def predicted(self, case):
@@ -1648,7 +1651,7 @@ class RelRef(Conf):
     thorough_n = 3000
     CHECKS = ["resolved"]
     REFS = ["/s", "/", "//o.org/x", "//o.org", "x", "x/y", "./x", "../x", "../../x", "../../../x", "?q=2", "#f", "", "x?q#f", ".", "..",
-            "./", "../", "x/./y", "x/../y", "/a/../b", "?", "#", "x#", "/s?q", "x/.", "x/..", "/ns/"]
+            "./", "../", "x/./y", "x/../y", "/a/../b", "?", "#", "x#", "/s?q", "x/.", "x/..", "/ns/", "#a:b", "x?a:b", "?x:y", "a/b:c"]
 
     def gen(self, rng, i):
         return {"format": rng.choice(["turtle", "trig"]), "base": rng.choice(BASES), "ref": rng.choice(self.REFS),
